@@ -593,7 +593,7 @@ func planC02(prop string, seed uint64, tier string, idx int) *Plan {
 		case 11:
 			g.add(Op{K: "gc", Repo: g.r.pick(-1, repo)})
 		case 12:
-			g.add(Op{K: "sleep", Ms: int64(g.r.pick(10, 1000, 61000, 3700000))})
+			g.add(Op{K: "sleep", Ms: g.sleepMs()})
 		case 13:
 			if g.r.chance(30) {
 				g.add(Op{K: "del", Mode: "blob", Repo: repo, Obj: extra})
@@ -956,6 +956,24 @@ func planC08(prop string, seed uint64, tier string, idx int) *Plan {
 		g.add(op)
 	}
 	return g.finish(prop, "upload-201", "session-over-bound", "timer-fired")
+}
+
+// sleepMs draws a sleep that is interesting relative to grace period and tick frequency but bounded in ticks.
+func (g *gen) sleepMs() int64 {
+	k := g.p.Knobs
+	ms := int64(g.r.pick(10, 1000, 61000, 3700000))
+	if g.r.chance(50) && k.grace() > 0 {
+		ms = k.grace().Milliseconds() * int64(g.r.pick(5, 9, 11, 15, 25)) / 10
+	}
+	if f := k.freq(); f > 0 {
+		if lim := f.Milliseconds() * 60; ms > lim {
+			ms = lim
+		}
+	}
+	if ms < 1 {
+		ms = 1
+	}
+	return ms
 }
 
 func (g *gen) sleepAround(grace int64) int64 {
